@@ -82,7 +82,7 @@ CLAIMED = {
              'callFn). Correspondence under ASan+LeakSanitizer+UBSan+TROMPELOEIL_SANITY_CHECKS: random permutations of destruction/move '
              'operations over populations of mocks/expectations/sequences/monitors/watched/tracers interleaved with calls and queries; a '
              'sanitizer abort is a violation. Partial: memory safety is proved for the reference structure of the model; that the C++ keeps no '
-             'other pointers is observed by the sanitizers on the explored histories. Re-entrant calls keep every invariant (reentrant_reachable, reentrant_WF). Second tie (translator): ~sequence_type (pending and retired handles detached), sequence_matcher::detach regenerated from /repo\'s current source by tools/cxx2lean.py on every run and proved equal to the model definitions (seq_dtor_eq, handle_detach_order). Layer below the lists (Props/C14_Ring.lean): the intrusive ring itself - list_elem<T>::unlink / ~list_elem / operator=(list_elem&&) / is_linked and list<T,Disposer>::push_front / push_back / begin / end / iterator++ / ~list - is modelled as a heap of next/prev pointers (Model/Ring.lean); for EVERY legal script of ring operations, any number of rings side by side, the heap represents the abstract lists (ring_refines_lists: invariant Rep by induction over the script), iterators see exactly the list forwards and backwards (iteration_is_list), is_linked is membership (isLinked_iff_member), after unlink no other address holds a pointer to the removed element (unlinked_unreferenced), ~list_elem of an unlinked element writes nothing (dtor_of_unlinked_is_noop), list(list&&) transfers the elements in order and leaves the source empty and every other list untouched (move_transfers_ring). Tie: the ten member functions are regenerated from /repo on every run (while loops with explicit fuel) and proved equal to the model operations (Tie/Ring.lean), and harness/ring/h_ring.cpp runs the real ring (ASan+UBSan+SANITY_CHECKS) against `tmodel ring` on systematic and random legal scripts, comparing both traversal directions, empty() and is_linked() after every operation. The caller obligations (an element is pushed only while on no list) follow from well-formedness of the resulting list family (push_legal_of_wf_post, move_legal_of_wf_post), which is what the World invariant WF states after every operation - proved: absWf_of_WF / reachable_lists_wellformed (Props/C14_WorldRing.lean: the mock-function lists of every reachable world, read as a ring family over structured addresses, are well formed) and step_between_reachable_is_legal. For EVERY history of World operations the pointer heap produced by the ring scripts of the library represents the lists of the World: heap_refines_world (mock-function lists, Props/C14_HeapRefines.lean: step_heap for all 24 operations) and seq_heap_refines_world (the pending lists of the sequences, Props/C14_SeqHeapRefines.lean), by induction over the history. Each World operation is carried down to the pointers as a worked instance (expect_heap, release_heap, saturating_call_heap, kill_heap, move_heap; for the sequence lists register_heap, retire_heap, skip_heap, expect_seq_heap, release_seq_heap, accepted_call_seq_heap - Props/C14_WorldRing.lean, Props/C14_SeqRing.lean), and which ring operations the C++ issues is read off the regenerated translations of run_actions, lifetime_monitor::notify, decommission and ~expectations and proved to be those scripts (Tie/RingScripts.lean: run_actions_heap, run_actions_seq_heap, notify_seq_heap, kill_heap_from_cxx); the retired ring of a sequence and the compiler-generated move constructor remain by inspection and sanitizer observation.',
+             'other pointers is observed by the sanitizers on the explored histories. Re-entrant calls keep every invariant (reentrant_reachable, reentrant_WF). Second tie (translator): ~sequence_type (pending and retired handles detached), sequence_matcher::detach regenerated from /repo\'s current source by tools/cxx2lean.py on every run and proved equal to the model definitions (seq_dtor_eq, handle_detach_order). Layer below the lists (Props/C14_Ring.lean): the intrusive ring itself - list_elem<T>::unlink / ~list_elem / operator=(list_elem&&) / is_linked and list<T,Disposer>::push_front / push_back / begin / end / iterator++ / ~list - is modelled as a heap of next/prev pointers (Model/Ring.lean); for EVERY legal script of ring operations, any number of rings side by side, the heap represents the abstract lists (ring_refines_lists: invariant Rep by induction over the script), iterators see exactly the list forwards and backwards (iteration_is_list), is_linked is membership (isLinked_iff_member), after unlink no other address holds a pointer to the removed element (unlinked_unreferenced), ~list_elem of an unlinked element writes nothing (dtor_of_unlinked_is_noop), list(list&&) transfers the elements in order and leaves the source empty and every other list untouched (move_transfers_ring). Tie: the ten member functions are regenerated from /repo on every run (while loops with explicit fuel) and proved equal to the model operations (Tie/Ring.lean), and harness/ring/h_ring.cpp runs the real ring (ASan+UBSan+SANITY_CHECKS) against `tmodel ring` on systematic and random legal scripts, comparing both traversal directions, empty() and is_linked() after every operation. The caller obligations (an element is pushed only while on no list) follow from well-formedness of the resulting list family (push_legal_of_wf_post, move_legal_of_wf_post), which is what the World invariant WF states after every operation - proved: absWf_of_WF / reachable_lists_wellformed (Props/C14_WorldRing.lean: the mock-function lists of every reachable world, read as a ring family over structured addresses, are well formed) and step_between_reachable_is_legal. For EVERY history of World operations the pointer heap produced by the ring scripts of the library represents the lists of the World: heap_refines_world (mock-function lists, Props/C14_HeapRefines.lean: step_heap for all 24 operations) and seq_heap_refines_world (the pending lists of the sequences, Props/C14_SeqHeapRefines.lean), by induction over the history. Each World operation is carried down to the pointers as a worked instance (expect_heap, release_heap, saturating_call_heap, kill_heap, move_heap; for the sequence lists register_heap, retire_heap, skip_heap, expect_seq_heap, release_seq_heap, accepted_call_seq_heap - Props/C14_WorldRing.lean, Props/C14_SeqRing.lean), and which ring operations the C++ issues is read off the regenerated translations of run_actions, lifetime_monitor::notify, decommission and ~expectations and proved to be those scripts (Tie/RingScripts.lean: run_actions_heap, run_actions_seq_heap, notify_seq_heap, kill_heap_from_cxx); the retired ring of a sequence and the compiler-generated move constructor remain by inspection and sanitizer observation. The retired rings and the seq pointers of the handles are modelled as a machine of their own (Props/C14_HandleMachine.lean: for every script of reg / retire / detach / drop / killSeq the heap represents both rings of every sequence and a handle is attached exactly while it is on one of them: hrun_inv, attached_seq_alive) which every World history drives legally (Props/C14_HandleWorld.lean: machine_follows_world, world_attached_seq_alive); no_dangling_after_history, linked_iff_listed_after_history, pending_walkable, is_completed_on_heap are corollaries at every point of every history.',
         ref='DESIGN.md §4 C14, §14', technique='Lean 4 proof (invariant by induction over all operations; simulation for move; heap-level refinement of the intrusive ring to lists) + sanitizer-instrumented model/implementation correspondence'),
     'C15': dict(
         text='Theorems: every report of a call is fatal, every report of any other operation non-fatal (call_reports_fatal, '
@@ -98,7 +98,7 @@ CLAIMED = {
     'C17': dict(
         text='Theorems: accepted call => exactly one trace record to the head of the live-tracer chain with handler, arguments, result '
              '(trace_one_per_accepted); no tracer => no trace (no_tracer_no_trace); non-calls never trace (only_calls_trace); tracer chain '
-             'push/remove (tracer_stack, nested_restore). Re-entrant calls: the outer record is the last record of the operation and carries the outer result (reentrant_outer_record_last). Second tie (translator): ~tracer, mock_func regenerated from /repo\'s current source by tools/cxx2lean.py on every run and proved equal to the model definitions (tracer_dtor_tie, mock_func_order). Threads: scenario s9 of harness/conc (tracer constructed on the main thread, accepted calls on 2-8 worker threads, records = accepted calls; a nested tracer made and destroyed first) is part of this check.',
+             'push/remove (tracer_stack, nested_restore). Re-entrant calls: the outer record is the last record of the operation and carries the outer result (reentrant_outer_record_last). Second tie (translator): ~tracer, mock_func regenerated from /repo\'s current source by tools/cxx2lean.py on every run and proved equal to the model definitions (tracer_dtor_tie, mock_func_order). Threads: scenario s9 of harness/conc (tracer constructed on the main thread, accepted calls on 2-8 worker threads, records = accepted calls; a nested tracer made and destroyed first) is part of this check. Tracer lifetimes that begin or end inside a call (tracer constructed by a side effect or a RETURN expression): harness/tracerlife, 16 cases.',
         ref='DESIGN.md §4 C17', technique='Lean 4 proof + model/implementation correspondence'),
     'C11': dict(
         text='Theorems (all lengths, duplicates allowed): the element-wise fold / std::equal / std::mismatch loops accept exactly '
@@ -173,7 +173,7 @@ CLAIMED = {
              'CO_ clause (lazy) or exactly the first (eager) (coro_call_time); no exception reaches the caller of the mock function, it is an item of '
              'a pull (coro_throw_at_await); every call gets its own cursor, so coroutines of one expectation are independent under any interleaving '
              '(coro_independent). Known finding F12 (parameters of the call are dead when deferred clauses run) is excluded by hypothesis and '
-             'reported as KNOWN-FINDING while it reproduces.',
+             'reported as KNOWN-FINDING while it reproduces. Completion-value family (harness/covalue, 17 cases): lvalue CO_RETURN / CO_YIELD expressions of move-sensitive types, several calls per expectation, resumed in another order than created: every coroutine gets the value and the objects named are left as they were.',
         ref='DESIGN.md §4 C20', engine='lean-coro',
         note='Trusted: Lean kernel; axioms propext/Classical.choice/Quot.sound; statements in Props/C20.lean; the promise types of the harness '
              '(lazy/eager pullers, value/void completion) and g++ 12.2 coroutine codegen; matching/counting/sequence checks at call time are the '
